@@ -250,12 +250,37 @@ static Verdict c10_check(const KV &c, Ctx &ctx) {
   Cost cost = decode_cost(s, P.size());
   cost.units *= 2;
   bool hashed = false;
-  if (affordable(cost, ctx.tier)) {
+  bool afford = affordable(cost, ctx.tier);
+  if (!afford) {
+    // a few hashes per method and process are run although they exceed the per-call budget (up to ten times), so that
+    // methods whose cheapest generated setting is already expensive (sunmd5, sha1crypt) are not left to the probe alone
+    static std::map<int, int> pricey;
+    Cost relaxed = cost;
+    relaxed.units /= 10;
+    if (affordable(relaxed, ctx.tier) && pricey[(int)m] < (ctx.tier.thorough ? 20 : 4)) {
+      pricey[(int)m]++;
+      afford = true;
+    }
+  }
+  if (afford) {
     hashed = true;
     HashRes h = hash_rn(P, s);
     ctx.st.executed++;
     if (!h.ok) return "C10 crypt rejects a generated setting: " + vis(s, 200) + " errno=" + std::to_string(h.err) + " [prefix=\"" + vis(prefix, 80) + "\" count=" + std::to_string(count) + " nrbytes=" + std::to_string(nb) + "]";
     if (h.out.compare(0, s.size(), s) != 0) return "C10 hash does not keep the generated setting as a literal prefix: setting=" + vis(s, 200) + " hash=" + vis(h.out, 300);
+    // acceptance does not depend on the errno value left behind by whatever the caller did before (the usual
+    // sequence is a gensalt call that failed with ERANGE, a retry with a larger buffer, then crypt)
+    {
+      static struct crypt_data *cd2 = nullptr;
+      if (!cd2) cd2 = (struct crypt_data *)calloc(1, sizeof *cd2);
+      memset(cd2, 0, sizeof *cd2);
+      static const int STALE[] = {ERANGE, EINVAL, ERANGE, ENOMEM, ERANGE, EDOM, ERANGE, EINTR, ERANGE, 12345};
+      int stale = STALE[(fnv(s) + count) % (sizeof STALE / sizeof *STALE)];
+      errno = stale;
+      char *e = crypt_rn(P.c_str(), s.c_str(), cd2, (int)sizeof *cd2);
+      ctx.st.executed++;
+      if (!e || h.out != e) return "C10 crypt_rn entered with errno == " + std::to_string(stale) + " gives " + vis(e ? e : "(null)", 200) + " for the generated setting " + vis(s, 200) + ", " + vis(h.out, 200) + " with errno == 0";
+    }
     // static result handed to crypt without copying
     char *st = crypt_gensalt(isnull ? nullptr : prefix.c_str(), count, rb.data(), (int)rb.size());
     char *hh = st ? crypt(P.c_str(), st) : nullptr;
